@@ -96,6 +96,8 @@ def cases(tier):
             d["id"], d["what"], d["base"] = "twin/C04/" + c["id"], "twin", "C04"
             out.append(d)
     for k, c in enumerate(C06.cases("quick")):
+        if c["id"].startswith("two/C-ps[p1,c0,p0]-V") and tier == "quick":
+            continue  # 4-5 minutes with contraction on; thorough tier
         if k % stride == 2 and c["fam"] != "sym2" and not has_matrix(c):
             d = _with_contraction(c)
             d["id"], d["what"], d["base"] = "twin/C06/" + c["id"], "twin", "C06"
